@@ -12,8 +12,9 @@ theorem stopped_edges (allowed : Bool) (frm next : S) (h : check allowed .stoppe
     next = .booting ∨ next = .broken := by
   cases allowed <;> cases frm <;> cases next <;> simp_all [check]
 
-/-- **stale_from_no_effect.**  A request whose origin is not the current state is ignored … -/
-theorem stale_from_ignored (allowed : Bool) (cur frm next : S) (h : frm ≠ cur) :
+/-- **stale_from_no_effect.**  A request whose origin is not the current state is ignored (for a target no handler is
+registered for the check answers with an error first: see `stale_unknown_no_effect`) … -/
+theorem stale_from_ignored (allowed : Bool) (cur frm next : S) (h : frm ≠ cur) (hn : next ≠ .unknown) :
     check allowed cur frm next = .ignore := by
   cases allowed <;> cases cur <;> cases frm <;> cases next <;> simp_all [check]
 
@@ -22,9 +23,26 @@ theorem ignored_no_effect (sc : Script) (m : M) (frm next : S) (h : check m.allo
     switchState sc m frm next = (m, .done) := by
   simp [switchState, h]
 
-theorem stale_from_no_effect (sc : Script) (m : M) (frm next : S) (h : frm ≠ m.cur) :
+theorem stale_from_no_effect (sc : Script) (m : M) (frm next : S) (h : frm ≠ m.cur) (hn : next ≠ .unknown) :
     switchState sc m frm next = (m, .done) :=
-  ignored_no_effect sc m frm next (stale_from_ignored m.allowed m.cur frm next h)
+  ignored_no_effect sc m frm next (stale_from_ignored m.allowed m.cur frm next h hn)
+
+/-- … and a stale request for a target without a handler has no effect either, through the whole
+`ensureSwitchState`: the check's error sends the loop to Broken with the request's (stale) origin, and that
+request is ignored -/
+theorem stale_unknown_no_effect (sc : Script) (m : M) (fuel : Nat) (frm : S) (h : frm ≠ m.cur) :
+    (ensure sc (fuel + 2) m 0 frm .unknown).1 = m := by
+  have h1 : switchState sc m frm .unknown = (m, .error) ∨ switchState sc m frm .unknown = (m, .done) := by
+    unfold switchState
+    cases hc : check m.allowed m.cur frm .unknown with
+    | ignore => right; rfl
+    | error => left; rfl
+    | ok => cases ha : m.allowed <;> cases hcur : m.cur <;> simp_all [check]
+    | redirect r => cases ha : m.allowed <;> cases hcur : m.cur <;> simp_all [check]
+  have h2 : switchState sc m frm .broken = (m, .done) := stale_from_no_effect sc m frm .broken h (by simp)
+  rcases h1 with e | e
+  · simp [ensure, e, h2]
+  · simp [ensure, e]
 
 /-- what the check lets through when consensus is not allowed and the node is not in handover -/
 theorem check_no_consensus (cur frm next : S) (hc : cur ≠ .handover) :
@@ -40,6 +58,7 @@ theorem switch_target (sc : Script) (m : M) (frm next : S) :
   unfold switchState
   cases hc : check m.allowed m.cur frm next with
   | ignore => simp
+  | error => simp
   | ok =>
     simp only
     cases sc false m.cur frm next <;> simp <;> (try split) <;> (try split) <;>
@@ -71,6 +90,7 @@ theorem switch_shape (sc : Script) (m : M) (frm next : S) :
   unfold switchState
   cases check m.allowed m.cur frm next with
   | ignore => simp
+  | error => simp
   | ok =>
     simp only
     cases sc false m.cur frm next <;> simp only <;> (try split) <;> (try split) <;> (try simp) <;>
